@@ -339,10 +339,24 @@ Proof.
     cbn [app]. eexists _, _. split; [reflexivity|exact Hr].
 Qed.
 
+Lemma decode_encode_tuple ws : wf_widths ws -> forall zs, wt_tuple ws zs -> decode_tuple ws (encode_tuple ws zs) = zs.
+Proof.
+  induction ws as [|w ws IH]; intros Hw zs Wz.
+  - destruct zs; [reflexivity|contradiction].
+  - destruct zs as [|[|z| | |] zs]; cbn [wt_tuple] in Wz; try contradiction. cbn [wf_widths] in Hw.
+    cbn [encode_tuple decode_tuple hd tl vint].
+    assert (Ef : firstn w (encode_signed w z ++ encode_tuple ws zs) = encode_signed w z).
+    { rewrite <- (encode_signed_length w z) at 1. rewrite firstn_app, firstn_all, Nat.sub_diag. cbn [firstn]. apply app_nil_r. }
+    assert (Es : skipn w (encode_signed w z ++ encode_tuple ws zs) = encode_tuple ws zs).
+    { rewrite <- (encode_signed_length w z) at 1. apply skipn_app_at. }
+    rewrite Ef, Es. rewrite decode_encode_signed; [| tauto | unfold in_signed; rewrite half_Z by tauto; tauto].
+    f_equal. apply IH; tauto.
+Qed.
+
 (* ------------------------------------------------------------------ every field type *)
 Theorem dec_enc : forall t, wf_type t -> forall o v rest, wt t v -> dec t o (enc t o v ++ rest) = (v, rest).
 Proof.
-  induction t as [w|w| |w|n| |fs IH|c IH|c n IH|c IH] using ftype_ind'; intros Wt o v rest Wv.
+  induction t as [w|w| |w|n| |fs IH|c IH|c n IH|c IH|ws] using ftype_ind'; intros Wt o v rest Wv.
   - cbn [dec enc wf_type] in *. destruct v; try (cbn [wt] in Wv; contradiction); [apply dec_fixed_null|].
     rewrite dec_fixed_valid; [|apply encode_signed_length | now apply encode_signed_wf].
     rewrite decode_encode_signed; [reflexivity | exact Wt |]. unfold in_signed. rewrite half_Z by exact Wt. exact Wv.
@@ -419,6 +433,9 @@ Proof.
     rewrite decode_blocks_some by exact We. rewrite inv_if_invol by exact We.
     rewrite skipn_app_at. rewrite <- (app_nil_r (enc c (child_opts o) v)).
     rewrite (IH Wt (child_opts o) v [] Wv). reflexivity.
+  - rewrite wf_type_iv in Wt. cbn [dec enc]. destruct v; try (cbn [wt] in Wv; contradiction); [apply dec_fixed_null|].
+    rewrite wt_iv in Wv. rewrite dec_fixed_valid; [|apply encode_tuple_length | now apply encode_tuple_wf].
+    now rewrite decode_encode_tuple.
 Qed.
 
 (* ------------------------------------------------------------------ rows *)
